@@ -46,7 +46,16 @@ def serialized_sources(wd, seed, tier):
     """files of the independent encoder as sources for other checks (C19)"""
     cases = encoder_cases(wd, False)
     out = []
-    for i, c in enumerate(cases[:: (9 if tier == "quick" else 3)]):
+    byname = {c["name"]: c for c in cases}
+    second = byname.get("s1-at-2008")
+    for c in cases:
+        # two point clouds with free space between them; a copy packs them back to back
+        if c["name"].startswith("big-") and second is not None:
+            img, scene = materialize.build_file([c, second], v=0, guid="enc-" + c["name"])
+            fp = os.path.join(wd, f"enc_{c['name']}.e57")
+            open(fp, "wb").write(img)
+            out.append({"name": f"enc:{c['name']}+s1", "file": fp})
+    for i, c in enumerate([c for c in cases if not c["name"].startswith("big-")][:: (9 if tier == "quick" else 3)]):
         img, scene = materialize.build_file([c], v=i % 6, guid=f"enc-{i}")
         fp = os.path.join(wd, f"enc_{i}.e57")
         open(fp, "wb").write(img)
